@@ -140,7 +140,8 @@ INVALID_SOURCES = [("c03", C03, gen_c03_invalid)]
 def extra_sources():
     """value modules that ship their own invalid-argument generator: gen_invalid(rng, tier)"""
     out = []
-    for n in ("c04", "c05", "c06", "c07", "c08", "c16", "c17"):
+    from ..integrated import VALUE
+    for n in [v for v in VALUE if v != "c03"]:
         try:
             mod = importlib.import_module("vf.checks." + n)
         except Exception:
